@@ -110,11 +110,27 @@ fn compare<S: Sch>(
 
 pub fn scheme<S: Sch + ProofMut>(rec: &mut Rec) {
     let cfg = slice_b::<S>();
+    scheme_polys::<S>(rec, slice_b_polys::<S>(&cfg, rec.seed), "");
+    // the same with three PLAIN polynomials (no degree bound, no hiding, pairwise different): adjacent members of a point
+    // group that all take the "no shifted part" path of the verifier
+    let shapes = crate::source::shapes_short::<S>(&cfg, rec.seed);
+    let n = shapes.len();
+    let base = slice_b_polys::<S>(&cfg, rec.seed);
+    let plain: Vec<LP<S>> = vec![
+        lp::<S>("p0", base[0].polynomial().clone(), None, None),
+        lp::<S>("p1", S::plus_one(base[0].polynomial()), None, None),
+        lp::<S>("p2", shapes[n / 2].1.clone(), None, None),
+    ];
+    scheme_polys::<S>(rec, plain, "/plain");
+}
+
+fn scheme_polys<S: Sch + ProofMut>(rec: &mut Rec, polys: Vec<LP<S>>, tag: &str) {
+    let cfg = slice_b::<S>();
     let keys = match build_keys::<S>(&cfg, rec.seed) {
         Ok(k) => k,
         Err(_) => return,
     };
-    let c = match commit_set::<S>(&keys, slice_b_polys::<S>(&cfg, rec.seed), rec.seed, 0) {
+    let c = match commit_set::<S>(&keys, polys, rec.seed, 0) {
         Ok(c) => c,
         Err(_) => return,
     };
@@ -123,6 +139,9 @@ pub fn scheme<S: Sch + ProofMut>(rec: &mut Rec) {
     // the last flag: hand the verifier only the commitments the query set refers to (more point labels
     // than commitments), instead of the whole committed set
     let mut cfgs: Vec<(Vec<usize>, Vec<usize>, bool)> = vec![(vec![0, 1], vec![0, 2], false), (vec![0, 1], vec![0, 1], false), (vec![0, 1, 2], vec![0, 2], false), (vec![0], vec![0, 1, 2], true), (vec![1], vec![0, 2], true)];
+    if !tag.is_empty() {
+        cfgs = vec![(vec![0, 1, 2], vec![0, 2], false), (vec![0, 1], vec![0, 1], false)];
+    }
     if rec.thorough() {
         cfgs.push((vec![0, 1, 2], vec![0, 1, 2], false));
         cfgs.push((vec![0, 2], vec![1, 2], false));
@@ -156,7 +175,7 @@ pub fn scheme<S: Sch + ProofMut>(rec: &mut Rec) {
         for (p, l) in pairs.iter() {
             qs.insert((c.polys[*p].label().clone(), (labels[*l].0.clone(), labels[*l].1.clone())));
         }
-        let tid = format!("{}/C05/{}/{}{}", S::NAME, cfg.id(), name, if minimal { "/only-needed-commitments" } else { "" }).replace(' ', "");
+        let tid = format!("{}{}/C05/{}/{}{}", S::NAME, tag, cfg.id(), name, if minimal { "/only-needed-commitments" } else { "" }).replace(' ', "");
         // the batch is opened by every worker (cheap); sub-families are sharded below
         let b = match open_batch::<S>(&keys, &c, &[0, 1, 2], &qs, 0, rec.seed, 0) {
             Ok(b) => b,
